@@ -245,7 +245,9 @@ func c09Deferral(c *Ctx, fl *Flow, cv *ssa.Function) {
 		cal := call.Call.StaticCallee()
 		if cal.Origin() == delay && len(cal.TypeArgs()) == 1 && cal.TypeArgs()[0].String() == modPath+".ProposeMsg" {
 			facts := fl.AtBlockStart(in.Block())
-			if falseOf(facts, func(k string) bool { return strings.HasPrefix(k, "(*hs/security/blockchain.Blockchain).LocalGet(") && strings.HasSuffix(k, "#1") }) &&
+			if falseOf(facts, func(k string) bool {
+				return strings.HasPrefix(k, "(*hs/security/blockchain.Blockchain).LocalGet(") && strings.HasSuffix(k, "#1")
+			}) &&
 				falseOf(facts, func(k string) bool { return strings.HasSuffix(k, "hs.VoteMsg.Deferred") }) {
 				okDelay = true
 			}
